@@ -231,6 +231,8 @@ def run(R):
             reopen_same = lambda: accessor.get_accessor_for_url(d, opts)   # noqa: E731
         pio = precomputed_io.get_IO_for_new_dataset(info, acc)
         arrays = []          # token -> array (expected read-back)
+        retained = []        # (array returned by a read, its copy at that time): must never change later
+        given_snap = {}      # token -> copy of the array handed to write_chunk (the call must not modify it)
         given_arrays = {}    # token -> array actually passed to write_chunk
         last = {}            # (key, coords) -> token
         ops, wire = [], []
@@ -262,6 +264,7 @@ def run(R):
                     given, want = small, small.astype(dt)
                 arrays.append(want)
                 given_arrays[len(arrays) - 1] = given
+                given_snap[len(arrays) - 1] = given.copy()
                 ops.append(("w", len(arrays) - 1, sc["key"], c, ckind))
                 wire.append([Atom("w"), len(arrays) - 1, sc["key"].encode(), list(c)])
             else:
@@ -296,6 +299,7 @@ def run(R):
                 want_tok = last.get((key, c))
                 if impl[0] == "ok":
                     arr = impl[1]
+                    retained.append((arr, arr.copy(), key, c))
                     if want_tok is None:
                         R.violation("read_chunk returned data for a chunk never written",
                                     {"info": info, "coords": list(c)}, {})
@@ -312,6 +316,23 @@ def run(R):
                                     {"info": info, "coords": list(c)}, {"impl": impl})
                 if impl_c != mod:
                     R.disagree("read_chunk vs model", {"info": info, "coords": list(c)}, impl_c, mod)
+        # every written position read once more through the same handle, results kept side by side
+        for (key_k, c_k), tok_k in list(last.items()):
+            got_k = outcome_of(lambda: pio.read_chunk(key_k, c_k))
+            if got_k[0] == "ok":
+                retained.append((got_k[1], got_k[1].copy(), key_k, c_k))
+        # results handed out earlier stay what they were (no output buffer shared between calls), and the
+        # arrays handed in are not modified
+        for arr, snap, key_r, c_r in retained:
+            if arr.shape != snap.shape or arr.tobytes() != snap.tobytes():
+                R.violation("an array returned by read_chunk changed when another chunk was read or written later "
+                            "(output buffer shared between calls)", {"info": info, "coords": list(c_r)}, {})
+                break
+        for tok_g, snap in given_snap.items():
+            g = given_arrays[tok_g]
+            if g.shape != snap.shape or g.tobytes() != snap.tobytes():
+                R.violation("write_chunk modified the array it was given", {"info": info}, {"token": tok_g})
+                break
         # second initialisation of the same dataset with a description that decodes differently: either it
         # is refused, or what is written through the returned handle must read back through a fresh handle
         if rng.random() < 0.4:
